@@ -815,6 +815,11 @@ func (w *World) Probes() map[string]int { return w.probes.Map() }
 //go:norace
 func (w *World) Choices() map[string]int64 { return w.choices.Map64() }
 
+// DrawCounts: how often each choice key was drawn so far (fault-point enumeration).
+//
+//go:norace
+func (w *World) DrawCounts() map[string]int { return w.idx.Map() }
+
 //go:norace
 func (w *World) SitePass() map[string]int { return w.sitePass.Map() }
 
